@@ -9,28 +9,46 @@ import Pandora.Model.C12
 namespace Pandora.Spec.C12
 open Pandora.Model.C12
 
-/-- one part of a startup profile -/
+/-- one part of a startup profile; `comp` is a NESTED composite (`schedule.NewComposite` applied to schedules that are
+themselves composites); `constm` is `const` with a fractional rate given in thousandths of an operation per second -/
 inductive Part
   | once (n : Int)
   | const (ops ms : Int)
+  | constm (milliops ms : Int)
   | step (frm to step ms : Int)
-deriving Repr, DecidableEq
+  | comp (ps : List Part)
 
-/-- token offsets (ns) of a composite of parts started at offset `s`; `none` when a part is not computed by the model:
-`const` with ops > 0 is computed only where every float64 operation of `NewConst` is exact (ops divides 10⁹ and the
-duration is whole seconds: n = ops·seconds tokens, token i at i·(10⁹/ops)); the float arithmetic in general belongs to C01 -/
-def partsToks : List Part → Int → Option (List Int)
-  | [], _ => some []
-  | .once n :: ps, s => (partsToks ps s).map (List.replicate n.toNat s ++ ·)
-  | .const ops ms :: ps, s =>
-      if ops ≤ 0 then partsToks ps (s + ms * 1000000)
+mutual
+/-- token offsets (ns) and finish time of one part started at offset `s`; `none` when the part is not computed by the
+model: `const` with ops > 0 is computed only where every float64 operation of `NewConst` is exact (ops divides 10⁹ and
+the duration is whole seconds: n = ops·seconds tokens, token i at i·(10⁹/ops)), a fractional rate never; the float
+arithmetic in general belongs to C01 -/
+def partToks : Part → Int → Option (List Int × Int)
+  | .once n, s => some (List.replicate n.toNat s, s)
+  | .const ops ms, s =>
+      if ops ≤ 0 then some ([], s + ms * 1000000)
       else if 1000000000 % ops == 0 && ms % 1000 == 0 then
-        (partsToks ps (s + ms * 1000000)).map
-          (((List.range (ops * (ms / 1000)).toNat).map fun (i : Nat) => s + (i : Int) * (1000000000 / ops)) ++ ·)
+        some ((List.range (ops * (ms / 1000)).toNat).map (fun (i : Nat) => s + (i : Int) * (1000000000 / ops)),
+              s + ms * 1000000)
       else none
-  | .step f t st ms :: ps, s =>
-      (partsToks ps (s + instanceStepDur f t st (ms * 1000000))).map
-        ((instanceStepToks f t st (ms * 1000000)).map (· + s) ++ ·)
+  | .constm _ _, _ => none
+  | .step f t st ms, s =>
+      some ((instanceStepToks f t st (ms * 1000000)).map (· + s), s + instanceStepDur f t st (ms * 1000000))
+  | .comp ps, s => partsToksF ps s
+/-- a composite: every part starts at the finish time of the previous one -/
+def partsToksF : List Part → Int → Option (List Int × Int)
+  | [], s => some ([], s)
+  | p :: ps, s =>
+      match partToks p s with
+      | none => none
+      | some r =>
+        match partsToksF ps r.2 with
+        | none => none
+        | some r' => some (r.1 ++ r'.1, r'.2)
+end
+
+/-- token offsets (ns) of a composite of parts started at offset `s` (`none`: not computed, see `partToks`) -/
+def partsToks (ps : List Part) (s : Int) : Option (List Int) := (partsToksF ps s).map (·.1)
 
 structure Obs where
   k : Nat
@@ -58,6 +76,10 @@ structure Obs where
   exits : List (Nat × Int × String)
   /-- first instants at which ammo ran out / an RPS schedule finished / cancel was called / gun creation failed -/
   cuts : List (String × Int)
+  /-- instant at which the last `Shoot` of an instance of the pool began (-1: none) -/
+  lastshot : Int := -1
+  /-- first instant at which a gun, shooting or being closed, saw the context of its `GunDeps` done (-1: never) -/
+  gunctx : Int := -1
 deriving Repr
 
 /-- margin around a cut inside which "was this token still started?" is not decided -/
@@ -135,6 +157,25 @@ def exitExplained (o : Obs) (x : Nat × Int × String) : Bool :=
   | "?" => true
   | _ => false
 
+/-- how long after the run was cancelled a `Shoot` may still BEGIN (an instance checks its context at every loop head and
+inside every `Wait`; one shot that was already due may follow) -/
+def runawayMargin : Int := 1000000000
+
+/-- the two clauses about the context an instance is given: (1) the context handed to the gun (`GunDeps.Ctx`) is not done
+while the instance is shooting or being closed unless the run was cancelled or the pool failed — ammo running out or the
+RPS profile ending cancels instance START only; (2) "keeps firing UNTIL the run is cancelled": no shot begins later than
+`runawayMargin` after the cancellation (decided only when the harness was scheduled well) -/
+def judgeCtx (o : Obs) : String :=
+  let by_ (kind : String) (t : Int) : Bool := match cutAt o kind with | some c => c ≤ t | none => false
+  if o.gunctx ≥ 0 && !(by_ "cancel" o.gunctx || by_ "fail" o.gunctx) then
+    s!"fail:gunctx:the context given to a gun was done at {o.gunctx} ns while its instance was running, the run not being cancelled ({o.cuts})"
+  else match cutAt o "cancel" with
+    | some c =>
+      if o.jitter ≤ jitterMax && o.lastshot > c + runawayMargin then
+        s!"fail:runaway:a shot began at {o.lastshot} ns, the run was cancelled at {c} ns"
+      else "ok"
+    | none => "ok"
+
 def distinct : List Nat → Bool
   | [] => true
   | x :: xs => !xs.contains x && distinct xs
@@ -161,8 +202,14 @@ where
     | some b => s!"fail:ahead:instance {b.1} created at {b.2} ns, before its token {o.toks[b.1]?.getD 0} was released (or without one)"
     | none =>
     if o.k != ids.length then "fail:driver:k" else
+    if o.mstart != o.k then s!"fail:metric:Metrics.InstanceStart counts {o.mstart} started instances, {o.k} guns were bound with an instance id" else
     if (startCuts perinst o).isEmpty && o.err == "nil" && o.k != o.total then s!"fail:count:{o.k} instances for {o.total} tokens and nothing cut the start short" else
     if o.jitter ≤ jitterMax && o.k + o.fails < lower perinst o then s!"fail:missing:{o.k} instances, {lower perinst o} tokens were released {margin / 1000000} ms or more before the first cause {o.cuts}" else
+    match judgeExits o with
+    | "ok" => judgeCtx o
+    | v => v
+  /-- every exit needs ITS cause, and none comes before the first possible cause -/
+  judgeExits (o : Obs) : String :=
     match minOf o.cuts, o.exits.head? with
     | none, some x => s!"fail:reduced:instance {x.1} finished at {x.2.1} ns although ammo, RPS profile and run were all still alive"
     | some c, _ =>
